@@ -2480,6 +2480,219 @@ func scenSelfDemotionUncommitted(e *engineA) error {
 	return e.finish()
 }
 
+func init() { scenarios["grown-cluster"] = scenGrownCluster }
+
+// scenGrownCluster (C02 / C06 / C08): a cluster that was bootstrapped with a
+// single voter grows to three (or five) voters under one and the same leader;
+// then that leader is cut off while clients keep sending it updates. Whatever
+// it reports committed from then on must survive: the others elect a leader,
+// go on, and the old leader comes back.
+func scenGrownCluster(e *engineA) error {
+	e.prof = profiles["member"]
+	if err := e.boot(1); err != nil {
+		return err
+	}
+	e.cl.startInfoSampler(e.hb() / 2)
+	l := e.cl.leader()
+	if l == nil {
+		return fmt.Errorf("no leader")
+	}
+	e.startClients(2, map[string]int{"update": 3, "read": 1})
+	grow := 2 + 2*e.rng.Intn(2)
+	for i := 0; i < grow; i++ {
+		info, ok := l.info(false)
+		if !ok {
+			return fmt.Errorf("no status")
+		}
+		conf := info.Configs.Latest
+		id := e.newNodeID(&conf)
+		if id == 0 {
+			return fmt.Errorf("no new node")
+		}
+		if err := e.cl.changeConfig(l, fmt.Sprintf("add(%d,promote=true)", id), func(c *raft.Config) error {
+			return c.AddNonvoter(id, e.cl.addrOf(id), true)
+		}); err != nil {
+			return fmt.Errorf("add: %v", err)
+		}
+		if !e.waitFor(120, func() bool {
+			li, ok := l.info(false)
+			return ok && li.Configs.IsStable() && li.Configs.IsCommitted() && li.Configs.Latest.Nodes[id].Voter
+		}) {
+			return fmt.Errorf("node %d was not promoted", id)
+		}
+	}
+	if cur := e.cl.leader(); cur != l {
+		return fmt.Errorf("leader changed while the cluster grew")
+	}
+	e.sleepHB(1, 3)
+	e.rc.emit(&ev.Rec{K: "fault", Op: "isolate-leader-of-grown-cluster", Nid: l.nid})
+	e.isolate(l, true)
+	for i := 0; i < 3+e.rng.Intn(4); i++ {
+		go e.cl.fsmOp(3, l, "update")
+	}
+	e.waitFor(80, func() bool {
+		for _, f := range e.others(l) {
+			if fi, ok := f.info(false); ok && fi.State == raft.Leader {
+				return true
+			}
+		}
+		return false
+	})
+	e.sleepHB(2, 4)
+	e.isolate(l, false)
+	e.sleepHB(4, 8)
+	return e.finish()
+}
+
+func init() { scenarios["uncommitted-term-leader"] = scenUncommittedTermLeader }
+
+// scenUncommittedTermLeader (C07): leadership is handed to a node that is cut
+// off, together with one follower, the moment it becomes leader (four voters:
+// neither half has a quorum). It accepts updates, replicates them to that one
+// follower, never commits anything in its term and gives up. Whatever it
+// told the clients, the network comes back, one of the two wins (their logs
+// are the longest) and the entries commit: an update that was refused for
+// good must not be among them.
+func scenUncommittedTermLeader(e *engineA) error {
+	e.prof = profiles["general"]
+	if err := e.boot(4); err != nil {
+		return err
+	}
+	e.cl.startInfoSampler(e.hb() / 2)
+	l := e.cl.leader()
+	if l == nil {
+		return fmt.Errorf("no leader")
+	}
+	for i := 0; i < 3; i++ {
+		e.cl.fsmOp(1, l, "update")
+	}
+	fs := e.others(l)
+	x, a := fs[0], fs[1]
+	rest := []*Node{l, fs[2]}
+	e.rc.emit(&ev.Rec{K: "fault", Op: "new-leader-cut-off-with-one-follower-before-its-first-commit", Nid: x.nid, ID: a.nid})
+	var cut int32
+	xdir := x.dir
+	e.rc.setOnNodeEvent(func(dir string, r *ev.Rec) {
+		if dir == xdir && r.K == "state" && r.St != nil && r.St.State == "L" && atomic.CompareAndSwapInt32(&cut, 0, 1) {
+			for _, m := range rest {
+				e.net.Cut(x.label, m.label, true)
+				e.net.Cut(m.label, x.label, true)
+				e.net.Cut(a.label, m.label, true)
+				e.net.Cut(m.label, a.label, true)
+			}
+		}
+	})
+	go e.cl.transfer(l, x.nid, 20*e.hb())
+	if !e.waitFor(60, func() bool { return atomic.LoadInt32(&cut) == 1 }) {
+		e.rc.setOnNodeEvent(nil)
+		return fmt.Errorf("the target did not become leader")
+	}
+	e.rc.setOnNodeEvent(nil)
+	var wg sync.WaitGroup
+	for i := 0; i < 2+e.rng.Intn(3); i++ {
+		wg.Add(1)
+		go func() {
+			defer wg.Done()
+			e.cl.fsmOp(3, x, "update")
+		}()
+	}
+	// it gives up once it has waited long enough for a quorum
+	e.waitFor(200, func() bool {
+		xi, ok := x.info(false)
+		return ok && xi.State != raft.Leader
+	})
+	wg.Wait()
+	e.net.HealAll(false)
+	e.sleepHB(6, 10)
+	e.startClients(2, map[string]int{"update": 3, "read": 1})
+	e.sleepHB(3, 6)
+	return e.finish()
+}
+
+func init() { scenarios["install-then-own-snapshot"] = scenInstallThenOwnSnapshot }
+
+// scenInstallThenOwnSnapshot (C12): while a follower is away the membership
+// changes (a node is added, another one's data changes) and the leader
+// compacts its log beyond those entries; the follower is brought forward by
+// an installed snapshot, receives only ordinary updates afterwards, takes a
+// snapshot of its own, compacts, and is restarted: what it then believes the
+// membership to be comes from the label of its own snapshot.
+func scenInstallThenOwnSnapshot(e *engineA) error {
+	e.prof = profiles["snapshot"]
+	if err := e.boot(3); err != nil {
+		return err
+	}
+	e.cl.startInfoSampler(e.hb() / 2)
+	l := e.cl.leader()
+	if l == nil {
+		return fmt.Errorf("no leader")
+	}
+	pad := 90 + 10*e.rng.Intn(4)
+	for i := 0; i < 5+e.rng.Intn(10); i++ {
+		e.cl.fsmOpPad(1, l, "update", pad)
+	}
+	f := e.others(l)[e.rng.Intn(2)]
+	e.rc.emit(&ev.Rec{K: "fault", Op: "membership-changes-while-away-then-install-then-own-snapshot", Nid: f.nid})
+	e.isolate(f, true)
+	info, ok := l.info(false)
+	if !ok {
+		return fmt.Errorf("no status")
+	}
+	conf := info.Configs.Latest
+	id := e.newNodeID(&conf)
+	if id == 0 {
+		return fmt.Errorf("no new node")
+	}
+	if err := e.cl.changeConfig(l, fmt.Sprintf("add(%d,promote=false)", id), func(c *raft.Config) error {
+		return c.AddNonvoter(id, e.cl.addrOf(id), false)
+	}); err != nil {
+		return fmt.Errorf("add: %v", err)
+	}
+	if e.rng.Intn(2) == 0 {
+		o := e.others(l)[0]
+		e.cl.changeConfig(l, fmt.Sprintf("setdata(%d)", o.nid), func(c *raft.Config) error { return c.SetData(o.nid, "moved") })
+	}
+	for i := 0; i < 20+e.rng.Intn(30); i++ {
+		if r := e.cl.fsmOpPad(1, l, "update", pad); !r.ok {
+			break
+		}
+	}
+	e.sleepHB(4, 5)
+	e.cl.takeSnapshot(l, 0)
+	li, _ := l.info(false)
+	e.waitFor(30, func() bool {
+		x, ok := l.info(false)
+		return ok && x.FirstLogIndex > li.Configs.Latest.Index
+	})
+	e.isolate(f, false)
+	e.waitFor(80, func() bool {
+		a, ok1 := f.info(false)
+		b, ok2 := l.info(false)
+		return ok1 && ok2 && a.Committed >= b.Committed
+	})
+	// only ordinary updates from here on
+	cur := e.cl.leader()
+	if cur == nil {
+		cur = l
+	}
+	for i := 0; i < 20+e.rng.Intn(20); i++ {
+		if r := e.cl.fsmOpPad(1, cur, "update", pad); !r.ok {
+			break
+		}
+	}
+	e.sleepHB(2, 3)
+	e.cl.takeSnapshot(f, 0)
+	e.sleepHB(2, 4)
+	if f.shutdown(30 * time.Second) {
+		if _, err := e.cl.start(f.nid, f.dir); err != nil {
+			e.rc.emit(&ev.Rec{K: "restart-failed", Cid: e.cl.cid, Nid: f.nid, Err: err.Error()})
+		}
+	}
+	e.startClients(2, map[string]int{"update": 3, "read": 1})
+	e.sleepHB(4, 8)
+	return e.finish()
+}
+
 func init() { scenarios["late-install-response"] = scenLateInstallResponse }
 
 // scenLateInstallResponse (C15 / C17): a new node is brought up by snapshot
